@@ -21,7 +21,7 @@ ASSUMPTIONS = [
     'the selector clause is proved for all inputs (symbolic series length): ma() performs exactly one call of the selected average with '
     'the same series, period and source type, and returns its result / its last entry',
     'definitions, recurrence steps, ranges and orderings are BOUNDED stand-ins: series of 14 candles with symbolic values, periods 2, 3 '
-    'and 5; "in value once the seed has decayed" is not a deductive statement and is not claimed',
+    'and 5 (RSI: 2, 3 and 4 - its nonlinear range proof leaves the solvers at period 5); "in value once the seed has decayed" is not a deductive statement and is not claimed',
     'not under contract: MACD signal line, Keltner, CCI, MFI, ADX family, stochastics through the selector (partial claim, listed)',
 ]
 TRUSTED = ['numpy element-wise model over concrete-length vectors (pyvc/npvec.py)']
@@ -30,7 +30,7 @@ MANIFEST = {
     'category': 'proof',
     'text': 'Proved for all inputs: the generic moving-average selector ma() calls, for each matype 0..39, exactly the average named for '
             'that number once, with the (sliced) series, the period, the source type and sequential=True, and returns its result (or its '
-            'last entry); matypes 7, 8, 19 raise. Bounded stand-ins (14 candles, symbolic values, periods 2/3/5), reported under '
+            'last entry); matypes 7, 8, 19 raise. Bounded stand-ins (14 candles, symbolic values, periods 2/3/5, RSI 2/3/4), reported under '
             'bounded_checks: SMA/WMA/ROC/MOM/OBV/typical/median price equal their window definitions exactly, EMA/DEMA/TEMA/Wilders '
             'satisfy their recurrence step, RSI in [0,100], Williams %R in [-100,0], ATR >= 0 and its Wilder recurrence over the true '
             'range, Bollinger upper >= middle >= lower with middle == SMA, Donchian bounds enclose high/low, SMA/EMA/WMA scale linearly.',
@@ -288,6 +288,19 @@ def npvec_axioms():
     return ax
 
 
+def t_native_definitions(h):
+    """BOUNDED, native: textbook definitions where the symbolic layer does not reach or real arithmetic hides the defect:
+    Wilder's ADX on series with exact ties, stochastic %K / %D with different smoothing types, standard deviation at a huge
+    price level (cancellation), plus the definitions of native/C15.py on random / spiky series"""
+    from pyvc import report as R
+    here = os.path.dirname(os.path.dirname(os.path.abspath(__file__)))
+    res = R.native([os.path.join(here, 'native', 'run.py'), 'C15'], {'bounded': 'definitions'})
+    if res.get('error'):
+        raise RuntimeError(f'bounded native check failed to run: {res}')
+    h.cover('native.definitions.pre')
+    h.prove(not res.get('confirmed'), 'definitions-hold-on-ties-mixed-smoothing-and-huge-prices.native-bounded', {'detail': res.get('detail')})
+
+
 def tasks(tier):
     x = dict(spec_mod=SPEC)
     ov = stubs.backtest_mode()
@@ -300,12 +313,17 @@ def tasks(tier):
     periods = PERIODS if tier == 'thorough' else (2, 3)
     for p in periods:
         for n in ('sma', 'wma', 'roc', 'mom', 'ema'):
-            ts.append(Task(f'window.{n}.p{p}', t_window(n, p), extra=dict(bx), overrides=dict(ov), prove_timeout_ms=30000))
+            ts.append(Task(f'window.{n}.p{p}', t_window(n, p), extra=dict(bx), overrides=dict(ov), prove_timeout_ms=180000))
         for n in ('ema', 'wilders', 'dema', 'tema'):
-            ts.append(Task(f'recurrence.{n}.p{p}', t_recurrence(n, p), extra=dict(bx), overrides=dict(ov), prove_timeout_ms=30000))
+            ts.append(Task(f'recurrence.{n}.p{p}', t_recurrence(n, p), extra=dict(bx), overrides=dict(ov), prove_timeout_ms=180000))
         for n in ('rsi', 'willr', 'atr', 'donchian', 'bollinger_bands'):
+            if n == 'rsi' and p > 4:
+                continue                 # nonlinear range proof over p + 4 values: beyond the solvers for p = 5 (10 min, undecided)
             ts.append(Task(f'candle.{n}.p{p}', t_candle_based(n, p), extra=dict(bx, fork_solver=(n == 'rsi')), overrides=dict(ov),
-                           prove_timeout_ms=30000))
+                           prove_timeout_ms=180000))
+    if tier == 'thorough':
+        ts.append(Task('candle.rsi.p4', t_candle_based('rsi', 4), extra=dict(bx, fork_solver=True), overrides=dict(ov), prove_timeout_ms=180000))
+    ts.append(Task('native.definitions', t_native_definitions, extra=dict(spec_mod=SPEC, bounded='native: ADX (ties), stoch (mixed matypes), stddev (price level 1e9), random / spiky series')))
     for n in ('obv', 'typprice', 'medprice'):
         ts.append(Task(f'candle.{n}', t_candle_based(n, 0), extra=dict(bx), overrides=dict(ov)))
     return ts
